@@ -23,9 +23,11 @@ import (
 	"bytes"
 	"context"
 	"database/sql"
+	"database/sql/driver"
 	"encoding/json"
 	"errors"
 	"fmt"
+	"io"
 	"regexp"
 	"sort"
 	"strconv"
@@ -61,11 +63,20 @@ type Case struct {
 	RType    string     `json:"rtype"`   // node | cluster (redis.ClusterType: per-key DEL)
 	Conn     string     `json:"conn"`    // conf (sqlc.NewConn) | node (sqlc.NewNodeConn, 1 node)
 	Api      int        `json:"api"`     // 0: ...Ctx methods, 1: context-free wrappers, 2: alternating
+	NfWrap   bool       `json:"nfwrap"`  // the database reports "no row" as a %w-wrapped sqlx.ErrNotFound
+	Inst2    *Options2  `json:"inst2"`   // a second CachedConn / cache.Cache (own options) over the same nodes: ops "<kind>@1"
 	Gap      int64      `json:"gap"`     // sqlc.cacheSafeGapBetweenIndexAndPrimary (ns) as extracted from the sources
 	Layer    string     `json:"layer"`   // sqlc (default) | cache: cache.Cache driven directly (context-free methods)
 	Readers  int        `json:"readers"` // kind conc*
 	Present  bool       `json:"present"` // kind conc*
 	Pk       string     `json:"pk"`      // kind conc*: primary key of the row
+}
+
+type Options2 struct {
+	Expiry   int64 `json:"expiry"`
+	NfExpiry int64 `json:"nfexpiry"`
+	ExpOpt   *bool `json:"expopt"`
+	NfOpt    *bool `json:"nfopt"`
 }
 
 type Entry struct {
@@ -129,6 +140,17 @@ type RowS struct {
 
 var errDB = errors.New("verif: database down")
 
+// what the database (the user's query / exec callbacks) fails with: a private error, or one of
+// the sentinels go-zero, database/sql, go-redis and context treat specially elsewhere - bare and
+// %w-wrapped.  Whatever it is, it is the database's error: returned, never cached.
+var dbErrs = []error{
+	errDB, driver.ErrBadConn, sql.ErrTxDone, context.Canceled, context.DeadlineExceeded, io.EOF, redis.Nil,
+	fmt.Errorf("verif: %w", driver.ErrBadConn), fmt.Errorf("verif: %w", context.Canceled),
+	fmt.Errorf("verif: %w", redis.Nil), errors.New("*"), errors.New(""), sql.ErrConnDone,
+}
+
+var errNotFoundWrapped = fmt.Errorf("verif: no such row: %w", sqlx.ErrNotFound)
+
 var pkKind = "int"
 
 func newTarget() any {
@@ -185,6 +207,8 @@ type fakeDB struct {
 	mu    sync.Mutex
 	rows  map[string]Row
 	fault bool
+	errv  error // what a failing query / exec returns
+	nf    error // what "no row" is reported as
 	qi    int
 	qp    int
 	seen  []string
@@ -222,11 +246,11 @@ func (d *fakeDB) byPrimary(pk string, known bool, v any) error {
 	d.mu.Lock()
 	defer d.mu.Unlock()
 	if d.fault {
-		return errDB
+		return d.errv
 	}
 	r, ok := d.rows[pk]
 	if !ok || !known {
-		return sqlx.ErrNotFound
+		return d.nf
 	}
 	return fill(v, r)
 }
@@ -240,7 +264,7 @@ func (d *fakeDB) byIndex(u int64, v any) (any, error) {
 	d.mu.Lock()
 	defer d.mu.Unlock()
 	if d.fault {
-		return nil, errDB
+		return nil, d.errv
 	}
 	for _, r := range d.rows {
 		if r.U == u {
@@ -250,7 +274,7 @@ func (d *fakeDB) byIndex(u int64, v any) (any, error) {
 			return native(r.Pk), nil
 		}
 	}
-	return nil, sqlx.ErrNotFound
+	return nil, d.nf
 }
 
 // write: put (present) or delete; a second row with the same u violates the unique index
@@ -258,7 +282,7 @@ func (d *fakeDB) write(pk string, present bool, u, v int64) error {
 	d.mu.Lock()
 	defer d.mu.Unlock()
 	if d.fault {
-		return errDB
+		return d.errv
 	}
 	if !present {
 		delete(d.rows, pk)
@@ -266,7 +290,7 @@ func (d *fakeDB) write(pk string, present bool, u, v int64) error {
 	}
 	for _, r := range d.rows {
 		if r.U == u && r.Pk != pk {
-			return errDB
+			return errDB // unique index violation
 		}
 	}
 	d.rows[pk] = Row{pk, u, v}
@@ -384,13 +408,13 @@ func i64(v any) int64 {
 	return n
 }
 
-func classify(err error) string {
+func classify(err, dbErr error) string {
 	switch {
 	case err == nil:
 		return "ok"
 	case errors.Is(err, sql.ErrNoRows):
 		return "nf"
-	case errors.Is(err, errDB):
+	case errors.Is(err, errDB) || (dbErr != nil && errors.Is(err, dbErr)):
 		return "dberr"
 	}
 	return "cerr"
@@ -619,17 +643,30 @@ func runSeq(c Case) Out {
 	out := Out{ID: c.ID}
 	setup(c)
 	reset()
-	db := &fakeDB{rows: map[string]Row{}, mid: -1}
+	db := &fakeDB{rows: map[string]Row{}, mid: -1, errv: errDB, nf: sqlx.ErrNotFound}
+	if c.NfWrap {
+		db.nf = errNotFoundWrapped
+	}
 	for _, r := range c.Rows {
 		db.rows[r[0]] = Row{r[0], i64(r[1]), i64(r[2])}
 	}
-	cc := newConn(c)
-	out.NodeOf = probe(cc, c.Nodes, c.Keys)
-	var ch cache.Cache
+	cc1 := newConn(c)
+	out.NodeOf = probe(cc1, c.Nodes, c.Keys)
+	var ch1 cache.Cache
 	if c.Layer == "cache" {
-		ch = newCache(c)
+		ch1 = newCache(c)
 	}
-	ctx := context.Background()
+	// a second instance with its own options over the same nodes (and, as in go-zero, the same
+	// process-wide single flight and statistics)
+	cc2, ch2 := cc1, ch1
+	if c.Inst2 != nil {
+		c2 := c
+		c2.Expiry, c2.NfExpiry, c2.ExpOpt, c2.NfOpt = c.Inst2.Expiry, c.Inst2.NfExpiry, c.Inst2.ExpOpt, c.Inst2.NfOpt
+		cc2 = newConn(c2)
+		if c.Layer == "cache" {
+			ch2 = newCache(c2)
+		}
+	}
 	delFailed := false
 	for i, op := range c.Ops {
 		db.qi, db.qp, db.seen = 0, 0, nil
@@ -639,6 +676,14 @@ func runSeq(c Case) Out {
 		isRead := false
 		plain := c.Api == 1 || (c.Api == 2 && i%2 == 0)
 		kind := op[0].(string)
+		cc, ch := cc1, ch1
+		if strings.HasSuffix(kind, "@1") {
+			kind = kind[:len(kind)-2]
+			cc, ch = cc2, ch2
+		}
+		// every operation runs under its own context, cancelled when the operation returns (as a
+		// request context is): nothing that outlives the operation may depend on it
+		ctx, cancel := context.WithCancel(context.Background())
 		if kind == "takemid" || kind == "qrimid" {
 			db.mid = num(op[2])
 			kind = kind[:len(kind)-3]
@@ -755,6 +800,10 @@ func runSeq(c Case) Out {
 			}
 		case "dbfault":
 			db.fault = num(op[1]) != 0
+			db.errv = errDB
+			if len(op) > 2 {
+				db.errv = dbErrs[num(op[2])%len(dbErrs)]
+			}
 		case "cclose":
 			n := num(op[1])
 			if num(op[2]) != 0 {
@@ -792,6 +841,7 @@ func runSeq(c Case) Out {
 			out.Err = "unknown op " + op[0].(string)
 			return out
 		}
+		cancel()
 		db.mid = -1
 		switch kind {
 		case "exec", "del", "cache:exec", "cache:del":
@@ -801,7 +851,7 @@ func runSeq(c Case) Out {
 			}
 		}
 		pad()
-		o.R = classify(err)
+		o.R = classify(err, db.errv)
 		if isRead && err == nil {
 			r := extract(row)
 			o.R, o.Pk, o.U, o.V = "row", r.Pk, strconv.FormatInt(r.U, 10), strconv.FormatInt(r.V, 10)
@@ -858,7 +908,7 @@ func runConc(c Case) Out {
 	out := Out{ID: c.ID}
 	setup(c)
 	reset()
-	db := &fakeDB{rows: map[string]Row{}, gate: make(chan struct{}), mid: -1}
+	db := &fakeDB{rows: map[string]Row{}, gate: make(chan struct{}), mid: -1, errv: errDB, nf: sqlx.ErrNotFound}
 	pk := c.Pk
 	if pk == "" {
 		pk = "1"
@@ -892,7 +942,7 @@ func runConc(c Case) Out {
 				r := extract(row)
 				res[i] = fmt.Sprintf("row:%s:%d:%d", r.Pk, r.U, r.V)
 			} else {
-				res[i] = classify(err)
+				res[i] = classify(err, nil)
 			}
 		}(i)
 	}
